@@ -181,9 +181,11 @@ def check_commands(ctx, shape):
     from pyvc.interp import _Break, _Continue
     fr_locals = {'startTime': FreshReal('startTime')}
     try:
-        kind, v, fr = run_region(I, so, CHECK, loop.body, fr_locals)
+        kind, v, fr = run_region(I, so, CHECK, loop.body, fr_locals, loop=loop)
     except (_Break, _Continue):
         kind, v = 'ok', None
+    if kind == 'not-entered':
+        return          # the time budget of the dequeue loop is used up: no round happens
     ctx.prove(kind == 'ok', 'C02+C11:O2.3.no-exception', info=getattr(v, 'typ', None))
     if kind != 'ok':
         return
